@@ -40,9 +40,12 @@ type Opts struct {
 	// the same for the metadata (catalogue) shard
 	MetaSnapshotEntries    uint64
 	MetaCompactionOverhead uint64
-	MaxInMemLogSize        uint64
-	LogCacheSize           int
-	RecoveryType           table.SnapshotRecoveryType
+	// TableElectionRTT optionally overrides ElectionRTT of the table shards per node (a node with a
+	// long election time-out takes long to notice that it has lost its quorum)
+	TableElectionRTT map[uint64]uint64
+	MaxInMemLogSize  uint64
+	LogCacheSize     int
+	RecoveryType     table.SnapshotRecoveryType
 	// Listener(node, table, rev) is called from every table replica's apply path.
 	Listener func(node uint64, table string, rev uint64)
 	// TableFS optionally supplies the table file system per node (default: fresh pebble MemFS).
@@ -199,7 +202,7 @@ func (c *Cluster) nodeConfig(id uint64, members map[uint64]string, gossip []stri
 		},
 		Table: storage.TableConfig{
 			FS: tfs, DataDir: "/tables", TableCacheSize: 1024, BlockCacheSize: 16 << 20,
-			ElectionRTT: o.ElectionRTT, HeartbeatRTT: 1,
+			ElectionRTT: tableElectionRTT(o, id), HeartbeatRTT: 1,
 			SnapshotEntries: o.SnapshotEntries, CompactionOverhead: o.CompactionOverhead,
 			MaxInMemLogSize: o.MaxInMemLogSize, RecoveryType: o.RecoveryType,
 			AppliedIndexListener: lst,
@@ -319,4 +322,11 @@ func (c *Cluster) WaitTable(name string, d time.Duration) error {
 		time.Sleep(20 * time.Millisecond)
 		c.ReconcileAll()
 	}
+}
+
+func tableElectionRTT(o Opts, id uint64) uint64 {
+	if v, ok := o.TableElectionRTT[id]; ok {
+		return v
+	}
+	return o.ElectionRTT
 }
